@@ -494,6 +494,30 @@ def skipDead (mark : Array Bool) : Nat → Table Node → Nat → Except Fault (
       | .ok t1 => skipDead mark fuel t1 (rd t.nxs idx)
     else .ok (t, idx)
 
+/-- the same loop reading the link before the cell is dropped, so that the table is uniquely
+referenced when `drop` updates it (used by compiled code through `@[csimp]`) -/
+def skipDeadFast (mark : Array Bool) : Nat → Table Node → Nat → Except Fault (Table Node × Nat)
+  | 0, _, _ => .error .outOfFuel
+  | fuel + 1, t, idx =>
+    if idx != 0 && !(rd mark idx) then
+      let nxt := rd t.nxs idx
+      match t.drop idx with
+      | .error e => .error e
+      | .ok t1 => skipDeadFast mark fuel t1 nxt
+    else .ok (t, idx)
+
+@[csimp] theorem skipDead_eq_fast : @skipDead = @skipDeadFast := by
+  funext mark fuel t idx
+  induction fuel generalizing t idx with
+  | zero => rfl
+  | succ n ih =>
+    unfold skipDead skipDeadFast
+    split
+    · cases t.drop idx with
+      | error e => rfl
+      | ok t1 => exact ih t1 _
+    · rfl
+
 /-- second loop: `prev`/`cur` relinking -/
 def relink (mark : Array Bool) : Nat → Table Node → Nat → Except Fault (Table Node)
   | 0, _, _ => .error .outOfFuel
